@@ -23,6 +23,7 @@ type oneshotCase struct {
 	Debug     bool              `json:"debug"`
 	Main      string            `json:"main"`
 	Ctx       *Val              `json:"ctx"`
+	Late      [][2]string       `json:"late_globals,omitempty"`
 }
 
 func init() {
@@ -44,6 +45,9 @@ func init() {
 		e.RegisterLoader(twig.NewArrayLoader(m))
 		hub := &spyHub{per: []*Spies{newSpies()}}
 		installSpies(e, hub)
+		for _, g := range c.Late {
+			e.AddGlobal(g[0], g[1])
+		}
 		if c.Debug {
 			e.SetDebug(true)
 		}
